@@ -77,6 +77,7 @@ class Net:
         self.env = kern.make_monenv(K.Environment)(t0)
         self.tape = NetTape(self.env)
         self.pk = Packets()
+        self.sched_of = {}        # uid -> kernel step in which the event that delivered the arrival was *scheduled*
         self.errors = []
 
     # -- taps -------------------------------------------------------------------
@@ -122,21 +123,27 @@ class Net:
 
         def run():
             n = 0
+            made = env.steps          # step in which the event that resumes this driver next was created
             for a in arrivals:
                 gap = a["t"] - env.now
                 if gap > 0:
                     s = a.get("split", 0)
                     if s and gap * s > 0 and gap - gap * s > 0:
                         first = gap * s
+                        made = env.steps
                         yield env.timeout(first)
                         rest = a["t"] - env.now
                         if rest > 0:
+                            made = env.steps
                             yield env.timeout(rest)
                     else:
+                        made = env.steps
                         yield env.timeout(gap)
                 elif a.get("yield0"):
+                    made = env.steps
                     yield env.timeout(0)
                 for _ in range(a.get("late", 0)):
+                    made = env.steps
                     yield env.timeout(0)                 # lands later *inside* the instant (after decisions taken at it)
                 if a.get("again") and last[0] is not None:
                     # the very same Packet object once more (a retransmitted instance, a hub repeating one object)
@@ -156,6 +163,7 @@ class Net:
                 if on_inject:
                     on_inject(p, a)
                 last[0] = p
+                self.sched_of[self.pk.uid[id(p)]] = made
                 target.put(p)
 
         last = [None]
